@@ -270,7 +270,17 @@ def find_argument(e, name):
     return None
 
 
-def derivative_case(c, stream, label, e, wrt, args, second=True, outcome=None, e_lean=None, **kw):
+MAX_ENTRIES = 300
+
+
+def static_size(e):
+    try:
+        return int(numpy.prod([int(n) for n in e.shape], dtype=int))
+    except Exception:
+        return 10**9
+
+
+def derivative_case(c, stream, label, e, wrt, args, second=True, outcome=None, e_lean=None, of_simplified=False, **kw):
     """build the Case(s) for expression e and argument name wrt using the REAL derivative; returns list of Case"""
     var = find_argument(e, wrt)
     if var is None:
@@ -284,8 +294,12 @@ def derivative_case(c, stream, label, e, wrt, args, second=True, outcome=None, e
             return []
         # any other exception / hang on a well-formed differentiable expression: the derivative does not exist as a tree
         c.case(('raises', stream, label))
-        sig = 'derivative-raises:%s:%s' % (type(d).__name__ if d is not None else 'hang', shrink.skeleton(e))
+        sig = 'derivative-raises:%s:%s' % (type(d).__name__ if d is not None else 'hang', shrink.skeleton(e) or type(e).__name__)
         c.failing_input(sig, 'evaluable.derivative raises %r on a well-formed expression' % (d,), dict(stream=stream, label=label, expr=X.describe(e, args), wrt=wrt, pickled=pack(e, args)))
+        return []
+    xsize = int(numpy.asarray(args[wrt]).size)
+    if static_size(e) * xsize > MAX_ENTRIES:
+        if outcome is not None: outcome['skipped-too-many-jacobian-entries'] += 1
         return []
     ds = [('raw', d)]
     k2, s = safe_simplified(d)
@@ -293,9 +307,21 @@ def derivative_case(c, stream, label, e, wrt, args, second=True, outcome=None, e
         ds.append(('simplified', s))
     elif k2 != 'ok' and outcome is not None:
         outcome['derivative-simplify-' + k2] += 1
+    if of_simplified and e_lean is None:
+        # the rules applied to the simplified form of the same expression
+        k5, es = safe_simplified(e)
+        if k5 == 'ok' and es is not e:
+            var2 = find_argument(es, wrt)
+            if var2 is not None:
+                k6, d3 = safe_derivative(es, var2)
+                if k6 == 'ok':
+                    ds.append(('of-simplified-expression', d3))
+                elif outcome is not None:
+                    outcome['derivative-of-simplified-%s:%s' % (k6, type(d3).__name__)] += 1
     cases = [Case(stream, label, e if e_lean is None else e_lean, wrt, args, ds, e_real=e, **kw)]
     if second and e_lean is None:
         names = float_argument_names(d)
+        names = [nm for nm in names if nm in args and static_size(d) * int(numpy.asarray(args[nm]).size) <= MAX_ENTRIES]
         if names:
             w2 = c.rng.choice(names)
             k3, dd = safe_derivative(d, find_argument(d, w2))
@@ -376,6 +402,11 @@ class Judge:
             if tag == 'simplified':
                 k, d2 = safe_simplified(d2, 10)
                 if k != 'ok': return False
+            if tag == 'of-simplified-expression':
+                k, es = safe_simplified(e2, 10)
+                if k != 'ok' or find_argument(es, wrt) is None: return False
+                k, d2 = safe_derivative(es, find_argument(es, wrt), 10)
+                if k != 'ok': return False
             k, v2 = X.real_eval(d2, a2)
             if k != 'ok': return False
             return fd_verdict(e2, v2, a2, wrt)[0] == 'disagree'
@@ -385,7 +416,7 @@ class Judge:
                 small, sargs = shrink.shrink(case.e_real, case.args, fails, budget=40)
         except Exception:
             pass
-        sig = 'derivative-wrong:%s%s' % (shrink.skeleton(small) or type(small).__name__, ':simplified-only' if tag == 'simplified' and not getattr(case, 'raw_bad', False) else '')
+        sig = 'derivative-wrong:%s%s' % (shrink.skeleton(small) or type(small).__name__, (':%s-only' % tag) if tag != 'raw' and getattr(case, 'raw_ok', False) else '')
         c.failing_input(sig, 'derivative tree (%s) of %s w.r.t. %s differs from the true Jacobian; decided by %s' % (tag, case.label, wrt, how),
                         dict(stream=case.stream, label=case.label, wrt=wrt, which=tag, expr=X.describe(small, sargs), pickled=pack(small, sargs),
                              original=X.describe(case.e_real, case.args), real_derivative=numpy.asarray(dv).tolist() if dv is not None else None,
@@ -428,6 +459,7 @@ class Judge:
             sym, pt = chk['sym'], chk['pt']
             if sym in ('same', 'same-modinv'):
                 self.count(case, 'proved-symbolically' + ('-modinv' if sym == 'same-modinv' else '') + ':' + tag); self.nsym += 1
+                if tag == 'raw': case.raw_ok = True
                 continue
             if sym == 'error' or pt in ('error', 'unknown'):
                 # Lean cannot evaluate this derivative tree (class outside the fragment) or cannot differentiate an atom: use the oracle at the point
@@ -435,6 +467,7 @@ class Judge:
                 continue
             if pt == 'same':
                 self.count(case, 'equal-at-sample-point:' + tag); self.npoint += 1
+                if tag == 'raw': case.raw_ok = True
                 continue
             if pt in ('kink', 'undefined'):
                 self.count(case, 'dropped-' + pt + ':' + tag)
@@ -452,7 +485,6 @@ class Judge:
                 self.oracle_vs_real(case, tag, d, kd, dv, a, chk)
                 continue
             # candidate: confirm on the real code
-            if tag == 'raw': case.raw_bad = True
             self.confirm(case, tag, d, kd, dv, a, chk)
 
     def spec_eval(self, case, what, tree, res, real_value):
@@ -615,7 +647,7 @@ def stream_random(c, J, n, maxdepth):
         c.rng.shuffle(names)
         # derivative w.r.t. one of several arguments: up to two different arguments of the same expression in the same process
         for wrt in names[:2]:
-            cases += derivative_case(c, 'random', 'e%d' % tries, e, wrt, g.args, second=(e.dtype == float and c.rng.random() < .6), outcome=J.outcome)
+            cases += derivative_case(c, 'random', 'e%d' % tries, e, wrt, g.args, second=(e.dtype == float and c.rng.random() < .6), outcome=J.outcome, of_simplified=c.rng.random() < .5)
         if c.rng.random() < .1:
             # an argument that does not occur: the derivative must be identically zero, of the right shape
             args = dict(g.args, zz=numpy.array([.5, -1.]))
@@ -1021,6 +1053,7 @@ def run(c):
     c.extra['deriv_table_unproved'] = sorted({r[0] for r in rows if r[4] is None or r[0].startswith('sinc')})
     if changed: c.log('Generated/C04.lean changed')
     broken = c.build_and_audit()
+    c.log('build and audit done')
     c.obligation('extract:deriv-table', len([r for r in rows if r[4] is not None]) >= 30, 'extraction', '%d rows extracted from the running code, %d outside SE' % (len(rows), len([r for r in rows if r[4] is None])))
 
     quick = c.tier == 'quick'
@@ -1032,8 +1065,9 @@ def run(c):
     cases += stream_withderivative(c, J, 6 if quick else 60)
     cases += stream_function(c, J, 10 if quick else 120)
     cases += stream_custom(c, J, 6 if quick else 40)
-    cases += stream_random(c, J, 45 if quick else 1500, 3 if quick else 5)
+    cases += stream_random(c, J, 40 if quick else 700, 3 if quick else 4)
     c.log('%d cases generated' % len(cases))
+    c.rng.shuffle(cases) if False else None
     # batches keep the driver's memory and the latency bounded
     B = 400
     for i in range(0, len(cases), B):
